@@ -44,6 +44,9 @@ func c03Run(c hCase) Verdict {
 	for k := range m.classes {
 		v.Classes = append(v.Classes, k)
 	}
+	if c.ShutdownAt > 0 && c.ShutdownAt <= len(run.steps) {
+		v.Classes = append(v.Classes, "graceful_shutdown_begun_mid_history")
+	}
 	// non-trivial: an accepted MAIL followed later by an out-of-order or
 	// transaction-ending command
 	v.NonTrivial = sawAcceptedMail && (m.classes["data_out_of_order"] || m.classes["bdat_out_of_order"] || m.classes["rcpt_without_mail"] ||
